@@ -11,7 +11,7 @@ EXPL = ("C08 has two layers. (A, deductive) The per-rule accounting is decided o
         "descent) - against contracts in contracts/cli.py: the Python API is used as function symbols of the CSS strings with the facts its own proved contracts give (C01 valid/flag_iff, C06, C14, C15); "
         "postconditions are the clauses of the statement: exactly one of the three counters goes up by one on every path, including every exception path into the handler (so no call after an increment "
         "may raise: callee preconditions are obligations); 'already readable' only when the pair's ratio reaches 7.0/4.5; 'adjusted' only on success of make_readable(mode, premium) of THIS pair, and "
-        "the one colour written (rule's own declaration, or the referenced custom property) and the colour reported are the API's colour; 'needs attention': listed with its selector, nothing written. A second extracted block (the @media/@supports branch) is proved to descend only into those at-rules, exactly once, forwarding default_bg / stats / file / variables / mode / premium unchanged, and to rebuild the at-rule's content after the descent. "
+        "the one colour written (rule's own declaration, or the referenced custom property) and the colour reported are the API's colour; 'needs attention': listed with its selector, nothing written. A second extracted block (the @media/@supports branch) is proved to descend only into those at-rules, exactly once, forwarding default_bg / stats / file / variables / mode / premium unchanged, and to rebuild the at-rule's content after the descent. A third one (the loop over a rule's parsed declarations, for a list of ANY length) is proved to end with the LAST `color` / `background-color` declaration (CSS: the last one wins) - loop invariant over the recursive spec function LAST(k) = index of the last such declaration among the first k. "
         "(E, BOUNDED) what the block does not see - tinycss2 parsing/serialisation, which declaration is found, nesting, custom-property resolution, the counts printed, the report and the written file - "
         "is checked by running the REAL click command on an enumerated corpus of stylesheets x --mode/--premium/--default-bg and judging the outcome with the harness's own oracles (independent "
         "classification of every rule, CSS-cascade custom properties, WCAG oracle, the Python API). A deductive proof of the file-level clause would be a proof about a model of tinycss2 (another family). "
@@ -253,6 +253,7 @@ def structural(prog):
 
 BLOCK = f'{CLI}:process_nodes_recursive__coloured_rule'
 BLOCK_AT = f'{CLI}:process_nodes_recursive__at_rule'
+BLOCK_SCAN = f'{CLI}:process_nodes_recursive__decl_scan'
 def _cn(name, old, new, expect): return {'name': name, 'mod': CLI, 'old': old, 'new': new, 'fn': BLOCK, 'expect': expect}
 CANARIES_A = [
     _cn('readable counted twice', '                            stats["accessible"] += 1\n', '                            stats["accessible"] += 2\n', 'counted_exactly_once'),
@@ -265,6 +266,8 @@ CANARIES_A = [
     dict(_cn('nested rules: --premium not forwarded', '                    mode=mode,\n                    premium=premium,\n                )\n\n                nested_css', '                    mode=mode,\n                )\n\n                nested_css', 'settings_forwarded'), fn=f'{CLI}:process_nodes_recursive__at_rule'),
     dict(_cn('nested rules: default background reset to white', '                process_nodes_recursive(\n                    nested_rules,\n                    default_bg,', '                process_nodes_recursive(\n                    nested_rules,\n                    "white",', 'settings_forwarded'), fn=f'{CLI}:process_nodes_recursive__at_rule'),
     dict(_cn('at-rule content not rebuilt after the descent', '                node.content = new_content\n', '                pass\n', 'rebuilt_after_descent'), fn=f'{CLI}:process_nodes_recursive__at_rule'),
+    dict(_cn('declaration scan stops once colour and background were seen', '                elif decl.name == "background-color":\n                    bg_decl = decl\n', '                elif decl.name == "background-color":\n                    bg_decl = decl\n                if color_decl and bg_decl:\n                    break\n', 'is_the_last'), fn=f'{CLI}:process_nodes_recursive__decl_scan'),
+    dict(_cn('first `color` declaration wins', '                if decl.name == "color":\n                    color_decl = decl', '                if decl.name == "color" and color_decl is None:\n                    color_decl = decl', 'color_is_last'), fn=f'{CLI}:process_nodes_recursive__decl_scan'),
     _cn('ratio kept in a second local (harmless)', 'contrast = calculate_contrast_ratio(pair.text.rgb, pair.bg.rgb)\n\n                        if contrast >= target_ratio:', 'ratio_now = calculate_contrast_ratio(pair.text.rgb, pair.bg.rgb)\n                        contrast = ratio_now\n\n                        if ratio_now >= target_ratio:', None),
 ]
 
@@ -279,14 +282,14 @@ def run(args):
     cj = []
     for cn in CANARIES_A:
         ov = mutate(prog, CLI, cn['old'], cn['new']); cj.append(None if ov is None else (cn['fn'], ov))
-    reps = verify_many([(BLOCK, None), (BLOCK_AT, None)] + [j for j in cj if j], variant='c08')
-    ck.absorb_A(reps[:2])
-    it = iter(reps[2:]); ck.absorb_canaries(CANARIES_A, [None if j is None else next(it) for j in cj])
+    reps = verify_many([(BLOCK, None), (BLOCK_AT, None), (BLOCK_SCAN, None)] + [j for j in cj if j], variant='c08')
+    ck.absorb_A(reps[:3])
+    it = iter(reps[3:]); ck.absorb_canaries(CANARIES_A, [None if j is None else next(it) for j in cj])
     for s_ in ck.selftest:
         if '(harmless)' in s_['name']:
             s_['ok'] = not s_['ok'] if ('still verifies' in s_['detail'] or 'killed' in s_['detail']) else s_['ok']; s_['detail'] = 'harmless edit: ' + s_['detail']
     ck.trust(*TRUSTED)
-    for bq in (BLOCK, BLOCK_AT):
+    for bq in (BLOCK, BLOCK_AT, BLOCK_SCAN):
       ex = getattr(prog, 'extracted', {}).get(bq)
       if ex: ck.notes.append(f"extracted block {bq.split(':')[1]}: lines {ex['lines'][0]}-{ex['lines'][1]} of cli/main.py, parameters {ex['params']}, returns {ex['returns']}; dropped by the extraction: {ex['drops']}")
     from contracts.registry import build
